@@ -161,7 +161,7 @@ CHECKS.update({
         technique='metamorphic property-based testing: generated traffic history run once (R) and with every datagram duplicated (D) in the deterministic simulator under keyed jitter; traces and callback logs compared',
         text=SIM + 'queries of every kind and responses with new/refreshed/goodbye/flush records, on an IPv4 or IPv6 socket; D must equal R in (time, socket, destination, decoded content) '
              'and in browser callbacks, except for a repeated unicast reply to a QU-containing datagram.',
-        note='open finding F10 (duplicated QU datagram repeats its multicast side effects) is recognised by signature, removed from the comparison and counted; packets that carry the TC bit themselves are not part of it and are compared in full',
+        note='F10 (a duplicated QU datagram repeated its multicast side effects) was an open finding until it was repaired in /repo; since then nothing is excluded from the comparison',
         ref='3/C16'),
 })
 
